@@ -293,7 +293,7 @@ func buildMenu(t *Tree, quick bool) *Menu {
 			m.Atoms = append(m.Atoms, Atom{T: ty, Paths: [][]string{p}})
 		}
 	}
-	// several paths at once: all unordered pairs of targets that can take the option (a leaf of the
+	// several paths at once: all ordered pairs of targets that can take the option (a leaf of the
 	// option's type, any graph node; for callbacks every node), plus one pair (first such target, unknown
 	// node) per type
 	for _, ty := range optTypes {
@@ -306,11 +306,15 @@ func buildMenu(t *Tree, quick bool) *Menu {
 		}
 		for i := 0; i < len(acc); i++ {
 			for j := i + 1; j < len(acc); j++ {
+				// both orders: the path list of one option is scanned in order (a shallow path before a nested one
+				// and the other way round are different scans)
 				m.Atoms = append(m.Atoms, Atom{T: ty, Paths: [][]string{acc[i], acc[j]}})
+				m.Atoms = append(m.Atoms, Atom{T: ty, Paths: [][]string{acc[j], acc[i]}})
 			}
 		}
 		if len(acc) > 0 {
 			m.Atoms = append(m.Atoms, Atom{T: ty, Paths: [][]string{acc[0], {"zz"}}})
+			m.Atoms = append(m.Atoms, Atom{T: ty, Paths: [][]string{{"zz"}, acc[0]}})
 		}
 	}
 	return m
